@@ -261,14 +261,14 @@ func (g *mgen) adjRemove(a *api.ContainerAdjustment, kind, key string) {
 		if a.Annotations == nil {
 			a.Annotations = map[string]string{}
 		}
-		a.Annotations[api.MarkForRemoval(key)] = ""
+		a.Annotations["-"+key] = ""
 	case "env":
-		a.Env = append(a.Env, &api.KeyValue{Key: api.MarkForRemoval(key)})
+		a.Env = append(a.Env, &api.KeyValue{Key: "-" + key})
 	case "mount":
-		a.Mounts = append(a.Mounts, &api.Mount{Destination: api.MarkForRemoval(key)})
+		a.Mounts = append(a.Mounts, &api.Mount{Destination: "-" + key})
 	case "device":
 		l := ensureLinuxAdj(a)
-		l.Devices = append(l.Devices, &api.LinuxDevice{Path: api.MarkForRemoval(key)})
+		l.Devices = append(l.Devices, &api.LinuxDevice{Path: "-" + key})
 	default:
 		panic("kind not removable: " + kind)
 	}
